@@ -185,6 +185,9 @@ func main() {
 			}
 		}
 		run.Count("requests", G*K)
+		if r < 2 {
+			run.Sample(map[string]interface{}{"round": r, "goroutines": G, "requests_each": K, "tallies": fmt.Sprintf("%+v", tallies)})
+		}
 		tot := tallies[0].block + tallies[1].block + tallies[2].block + tallies[3].block
 		if tot > 0 {
 			run.Distinct(vk.Hash(fmt.Sprintf("%+v", tallies)))
